@@ -29,6 +29,12 @@ AT_ID = "s" + b"at-id-1".hex()
 
 
 # ------------------------------------------------------------------------------------------------ scripts
+def suffix(sid):
+    """sids r* raise; o* are one-shot (they unsubscribe themselves inside their first callback); c* send a request of their own
+    from inside the callback"""
+    return {"r": " raise", "o": " once", "c": " caller"}.get(sid[0], "")
+
+
 def sub_ops(rng, con, n, live):
     """n subscribe / unsubscribe ops on existing entities; sids r* raise, s* do not; `live` collects what was ever subscribed"""
     ops = []
@@ -42,9 +48,9 @@ def sub_ops(rng, con, n, live):
             continue
         if live and k < 0.45:
             target = rng.choice(sorted(live))                      # subscribing again: no extra effect
-            ops.append("sub " + target + (" raise" if target.split()[-1].startswith("r") else ""))
+            ops.append("sub " + target + suffix(target.split()[-1]))
             continue
-        sid = rng.choice(["s1", "s2", "s3", "r1", "r2"])
+        sid = rng.choice(["s1", "s2", "s3", "r1", "r2", "o1", "c1", "both1", "both1"])
         kind = rng.choice(["at", "ac", "ac", "ac", "zone", "zone"] if con.zone_ids else ["at", "ac", "ac"])
         if kind == "at":
             target = "at %s" % sid
@@ -53,7 +59,7 @@ def sub_ops(rng, con, n, live):
         else:
             target = "zone %d %s" % (rng.choice(con.zone_ids), sid)
         live.add(target)
-        ops.append("sub " + target + (" raise" if sid.startswith("r") else ""))
+        ops.append("sub " + target + suffix(sid))
         if rng.random() < 0.2:
             ops.append(ops[-1])                                    # twice in a row
     return ops
@@ -161,7 +167,7 @@ def notify_key(target):
     if w[0] == "at":
         return "NOTIFY at %s %s" % (AT_ID, w[1])
     if w[0] == "ac":
-        return "NOTIFY ac %s %s:%s" % (w[1], w[2], w[3])
+        return "NOTIFY ac %s %s:%s" % (w[1], "both" if w[3].startswith("both") else w[2], w[3])
     return "NOTIFY zone %s %s" % (w[1], w[2])
 
 
@@ -176,6 +182,10 @@ def scope(target, view):
         return [("ac", ac)]
     zs = view["air_conditioners"].get(ac, {}).get("zones", {})
     return [("ac", ac)] + [("zone", z) for z in zs]
+
+
+def one_shot(target):
+    return target.split()[-1].startswith("o")
 
 
 def judge(gen, ops, base):
@@ -201,7 +211,7 @@ def judge(gen, ops, base):
         w = op.split()
         if w[0] == "sub":
             raising = w[-1] == "raise"
-            target = " ".join(w[1:-1] if raising else w[1:])
+            target = " ".join(w[1:-1] if w[-1] in ("raise", "once", "caller") else w[1:])
             active.setdefault(target, raising)
             continue
         if w[0] == "unsub":
@@ -253,7 +263,11 @@ def judge(gen, ops, base):
             struct = apiref.parse_view(nxt)
         expected_lines = {}
         groups = {}
+        spent = []
         for target, raising in active.items():
+            tw = target.split()
+            if tw[0] == "ac" and tw[3].startswith("both") and tw[2] == "state" and "ac %s general %s" % (tw[1], tw[3]) in active:
+                continue          # the same callable is also a general subscriber of this AC: judged once, with the wider scope
             line = notify_key(target)
             n = notes.count(line)
             expected_lines[line] = target
@@ -266,19 +280,28 @@ def judge(gen, ops, base):
                 report("missed:" + kind, i, "subscriber %r not invoked although %s changed" % (target, ch))
             elif not ch and mv == 0 and n > 0:
                 report("spurious:" + kind, i, "subscriber %r invoked %d times although nothing in its scope was reported differently" % (target, n))
+            elif one_shot(target) and n > 1:
+                report("one-shot-again:" + kind, i, "subscriber %r unsubscribed itself inside its first callback and was invoked %d times by this frame" % (target, n))
             elif n > max(mv, len(ch)):
                 report("too-often:" + kind, i, "subscriber %r invoked %d times for %d changed reports" % (target, n, max(mv, len(ch))))
             if not ch and mv and n:
                 cnt("%s:notified-on-hidden-change" % kind)
             if raising and n:
                 cnt("raising-subscriber-invoked")
-            groups.setdefault(tuple(target.split()[:-1]), []).append((target, n))
+            if one_shot(target):
+                if n:
+                    spent.append(target)                 # heard its one call: gone from now on
+            else:
+                groups.setdefault(tuple(target.split()[:-1]), []).append((target, n))
         for g, members in groups.items():
             if len({n for _, n in members}) > 1:
                 report("unequal:" + g[0], i, "subscribers of the same entity heard different numbers of calls: %s" % members)
         for x in notes:
             if x not in expected_lines:
                 report("not-subscribed", i, "%r although no such subscriber is subscribed to that entity (active: %s)" % (x, sorted(active)))
+        for target in spent:
+            active.pop(target, None)
+            cnt("one-shot-spent")
         cnt("frames-judged")
         prev_text = nxt
     return init_ok, bad, counts
@@ -341,7 +364,7 @@ def shrink(gen, ops, base, idx, key, budget=150):
 # ------------------------------------------------------------------------------------------------ entry points
 RULE = (
     "both generations; random installations (1..4 ACs, up to 8 zones); AirTouch-level subscribers possibly before init(), then subscribe / "
-    "subscribe-again / unsubscribe / unsubscribe-twice ops for AirTouch, AC general, AC state-only and zone subscribers (sids r* raise) "
+    "subscribe-again / unsubscribe / unsubscribe-twice ops for AirTouch, AC general, AC state-only and zone subscribers (sids r* raise, o* are one-shot: they unsubscribe themselves inside their first callback and must never be heard again, c* send a request of their own from inside the callback, both* are ONE callable registered on both AC channels, withdrawn from one or the other) "
     "interleaved with AC / zone / timer / error-text / version frames: changed, partially changed, unchanged records, byte-identical repeats "
     "(25%), unknown entity numbers, the same entity twice in a frame; plus scripts concentrating on error code / error text sequences. `view` "
     "before and after every frame: required = an attribute in the subscriber's scope changed between the views; forbidden = every entity in "
